@@ -46,6 +46,10 @@ def _deduplicate_filter(args):
     return new_args
 
 
+def _is_single_bit(v: int) -> bool:
+    return v > 0 and v & (v - 1) == 0
+
+
 #
 # The simplifiers.
 #
@@ -210,12 +214,13 @@ def eq_simplifier(a, b):
         if a.args[0].op == "BVV" and a.args[0].args[0] == 1:  # 1 ^ expr == 0
             return a.args[1] == 1
 
-        # (expr & a) ^ a == 0  ->  expr & a != 0
+        # (expr & a) ^ a == 0  ->  expr & a != 0, which only holds when a is a single-bit mask
         if (
             a.args[1].op == "BVV"
             and a.args[0].op == "__and__"
             and a.args[0].args[1].op == "BVV"
             and a.args[0].args[1].args[0] == a.args[1].args[0]
+            and _is_single_bit(a.args[1].args[0])
         ):
             return a.args[0] != 0
         if (
@@ -223,6 +228,7 @@ def eq_simplifier(a, b):
             and a.args[0].op == "__and__"
             and a.args[0].args[0].op == "BVV"
             and a.args[0].args[0].args[0] == a.args[1].args[0]
+            and _is_single_bit(a.args[1].args[0])
         ):
             return a.args[0].args[1] & a.args[0].args[0] != 0
 
@@ -308,12 +314,13 @@ def ne_simplifier(a, b):
         if a.args[0].op == "BVV" and a.args[0].args[0] == 1:
             return a.args[1] != 1
 
-        # (expr & a) ^ a != 0  ->  expr & a == 0
+        # (expr & a) ^ a != 0  ->  expr & a == 0, which only holds when a is a single-bit mask
         if (
             a.args[1].op == "BVV"
             and a.args[0].op == "__and__"
             and a.args[0].args[1].op == "BVV"
             and a.args[0].args[1].args[0] == a.args[1].args[0]
+            and _is_single_bit(a.args[1].args[0])
         ):
             return a.args[0] == 0
         if (
@@ -321,6 +328,7 @@ def ne_simplifier(a, b):
             and a.args[0].op == "__and__"
             and a.args[0].args[0].op == "BVV"
             and a.args[0].args[0].args[0] == a.args[1].args[0]
+            and _is_single_bit(a.args[1].args[0])
         ):
             return a.args[0].args[1] & a.args[0].args[0] == 0
 
